@@ -631,7 +631,7 @@ class Sess(Family):
 
     def cases(self, tier, rng):
         yield from systematic_sessions(tier)
-        n = 2400 if tier == "quick" else 60000
+        n = 2000 if tier == "quick" else 60000
         for i in range(n):
             c = gen_session(rng)
             if i % 11 == 0:
